@@ -457,7 +457,7 @@ func runC02(c *Ctx) {
 			for _, f := range fns {
 				eachInstr(f, func(in ssa.Instruction) {
 					lk, ok := in.(*ssa.Lookup)
-					if !ok || lk.CommaOk {
+					if !ok {
 						return
 					}
 					if k, ok := loadedField(lk.X); !ok || k != relTransport+".TraditionalDnsConn.queue" {
@@ -499,6 +499,10 @@ func runC02(c *Ctx) {
 			checkWaiterLifetime(c, fns, ins)
 		}
 	}
+
+	// ---------------------------------------------------------------- R13
+	c.rule("R13", "the datagram reader offers the whole receive buffer to every read (a buffer cut to an earlier, short datagram makes the reader drop every later reply)", 1)
+	checkDatagramReadBuffer(c)
 
 	// ---------------------------------------------------------------- R10
 	c.rule("R10", "every exchange-path function passes its own context, unchanged, to the inner exchange (no added deadline between the caller and the wait)", 6)
